@@ -3,6 +3,9 @@
 import json, subprocess
 ALL = ["C%02d" % i for i in range(1, 21)]
 CLAIMED = {
+ "C07": dict(level="exploration", technique="timed runtime monitor with interval timestamps: every observation of a family of write / reload / observe schedules carries [before, after] and is judged only where the intervals make the verdict certain",
+   text="Scenarios over item kind x expiry encoding x state x schedule place reads, reloads and the expiry instant in every order; the reported expiry must be the one fixed at write and never move, items must be visible certainly-before and invisible certainly-after it, purged from storage once observed expired, items without expiry stay, already-expired writes are rejected.",
+   note="Whole-second clock: observations straddling the expiry second are accepted either way; sub-second boundary behaviour is out of reach.", ref="§5 C07"),
  "C06": dict(level="fault_enumeration", technique="fault and crash injection at the core.Storage boundary with a live-vs-reloaded differential: storage wrapper (snapshot after every write, fail call k), SIGKILL of a sub-process right after bolt write k, aliasing canary",
    text="For generated histories on {indexed, linear} x {memory, bolt} every prefix is a reload point, every storage write a crash point (judged per id: old or new value) and every storage call a fault point (the issuing operation must fail); within each history the enumeration of points is complete (bolt kill points sampled in quick, complete in thorough); histories themselves are sampled.",
    note="Trusts bolt's transaction atomicity; remote back ends out of reach; the live location is the reference for crash points.", ref="§5 C06"),
